@@ -86,6 +86,20 @@ def shipped_images(scratch, include_xhexb=False):
         if ok:
             for i, inp in enumerate(inputs):
                 out.append(('%s#%d' % (x, i), img, inp))
+    # large images through the real loader: tours with a filler of 70 KB, 205 KB and 400 KB (memory is 800 000 bytes)
+    import random
+    from . import asmgen
+    for k, size in enumerate((70000, 205000, 400000)):
+        rr = random.Random(1000 + k)
+        items, expected = asmgen.gen_tour(rr, huge=1.0)
+        items = [(('pad', size) if (it[0] == 'pad' and it[1] > 60000) else it) for it in items]
+        sp = os.path.join(d, 'bigtour%d.S' % k)
+        with open(sp, 'w') as f:
+            f.write(asmgen.render(items))
+        img = os.path.join(d, 'bigtour%d.bin' % k)
+        ok, r = assemble(sp, img, d)
+        if ok:
+            out.append(('bigtour-%d' % size, img, b''))
     if include_xhexb:
         img = os.path.join(d, 'xhexb.S.bin')
         ok, r = assemble(os.path.join(REPO, 'tests/asm', 'xhexb.S'), img, d)
